@@ -498,3 +498,283 @@ def check_html_attr_values(ctx, classes, rule="NUL-htmlattr"):
                   f"`{txt}` is the value of an HTML attribute and is None for an attribute written without a value (`<font color>`); "
                   f"`{short(node, 60)}` receives it unchecked: TypeError / AttributeError on such input")
   return n
+
+
+# NUL-arg ----------------------------------------------------------------------------------
+def nullable_method_names(ix) -> typing.Dict[str, str]:
+  """(method name, number of arguments) of the package all of whose implementations may return None by construction:
+  the body returns `<dict>.get(key)` (no default), or returns None explicitly next to a value."""
+  cached = getattr(ix, "_nullable_method_names", None)
+  if cached is not None:
+    return cached
+  by_name: typing.Dict[str, typing.List[typing.Optional[str]]] = {}
+  for f in ix.funcs.values():
+    if f.cls is None or f.name.startswith("__"):
+      continue
+    why = None
+    rets = [n for n in own_nodes(f.node) if isinstance(n, ast.Return)]
+    for r in rets:
+      v = r.value
+      if isinstance(v, ast.Call) and isinstance(v.func, ast.Attribute) and v.func.attr == "get" and len(v.args) == 1 and not v.keywords:
+        why = f"{f.short} returns `{unparse(v)}`, None for a missing key"
+      elif (v is None or (isinstance(v, ast.Constant) and v.value is None)) and any(x.value is not None and not (isinstance(x.value, ast.Constant) and x.value.value is None) for x in rets):
+        why = f"{f.short} returns None on one path"
+    arity = len(f.params) - (0 if f.is_static else 1)
+    by_name.setdefault((f.name, arity), []).append(why)
+  out = {k: next(w for w in v if w) for k, v in by_name.items() if v and all(v)}
+  ix._nullable_method_names = out
+  return out
+
+
+def _param_derefs(f: FuncInfo, param: str):
+  """Unguarded dereferences of `param` in f (attribute / subscript / arithmetic), using the dominating-guard facts."""
+  cfg = CFG(f.node)
+
+  def tracked(p):
+    return "parameter" if p == param else None
+
+  def transfer(node, state):
+    st = set(state)
+    a = node.ast
+    if node.kind == "stmt" and isinstance(a, (ast.Assign, ast.AugAssign, ast.AnnAssign)):
+      for t in (a.targets if isinstance(a, ast.Assign) else [a.target]):
+        if isinstance(t, ast.Name) and t.id == param:
+          st.add(param)      # re-bound: no longer the caller's value
+    if node.kind == "stmt" and isinstance(a, ast.Assert):
+      st |= facts_from_test(a.test, True)
+    return frozenset(st)
+
+  def edge(node, lab, sin, sout):
+    if isinstance(lab, tuple):
+      if lab[0] == "cond":
+        return frozenset(set(sout) | facts_from_test(lab[1], lab[2]))
+      if lab[0] == "exc":
+        return sin
+    return sout
+  inn = forward(cfg, frozenset(), transfer, lambda a, b: a & b, edge)
+  hits = []
+  for nid, state in inn.items():
+    node = cfg.nodes[nid]
+    if node.ast is None:
+      continue
+    for e in header_exprs(node):
+      if isinstance(e, (ast.FunctionDef, ast.ClassDef)):
+        continue
+      if isinstance(e, ast.stmt):
+        for ch in ast.iter_child_nodes(e):
+          if isinstance(ch, ast.expr):
+            _derefs(ch, tracked, set(state), hits)
+          elif isinstance(ch, ast.keyword):
+            _derefs(ch.value, tracked, set(state), hits)
+      else:
+        _derefs(e, tracked, set(state), hits)
+  return hits
+
+
+def _is_none_test_of(test, text: str) -> bool:
+  """`<text> is None` / `(<text>) is None` / `<text> == None`"""
+  return isinstance(test, ast.Compare) and len(test.ops) == 1 and isinstance(test.ops[0], (ast.Is, ast.Eq)) \
+    and isinstance(test.comparators[0], ast.Constant) and test.comparators[0].value is None and unparse(test.left) == text
+
+
+def _ancestors(node, stop):
+  cur = getattr(node, "_parent", None)
+  while cur is not None and cur is not stop:
+    yield cur
+    cur = getattr(cur, "_parent", None)
+
+
+def check_nullable_args(ctx, funcs: typing.Iterable[FuncInfo], rule="NUL-arg", exempt: typing.Optional[typing.Dict[str, str]] = None):
+  """`g(.., x.get_style(p), ..)`: the argument is the direct result of a method that returns None for a
+  missing entry, and an implementation of g dereferences that parameter without a None test."""
+  ix = ctx.ix
+  nullable = dict(nullable_method_names(ix))
+  by_name: typing.Dict[str, typing.List[FuncInfo]] = {}
+  for g in ix.funcs.values():
+    by_name.setdefault(g.name, []).append(g)
+  deref_cache = {}
+  n = 0
+  for f in funcs:
+    for c in own_nodes(f.node):
+      if not isinstance(c, ast.Call):
+        continue
+      for i, a in enumerate(c.args):
+        if not (isinstance(a, ast.Call) and isinstance(a.func, ast.Attribute) and (a.func.attr, len(a.args) + len(a.keywords)) in nullable):
+          continue
+        why_null = nullable[(a.func.attr, len(a.args) + len(a.keywords))]
+        # guarded by an enclosing test on the same expression?
+        txt = unparse(a)
+        from . import match
+        guarded = False
+        for (test, pol) in match.enclosing_conditions(c, f.node):
+          if txt in facts_from_test(test, pol):
+            guarded = True
+        if guarded:
+          continue
+        # the key is an item of the keys view of the same container: the entry exists
+        if len(a.args) == 1 and isinstance(a.args[0], ast.Name):
+          for anc in _ancestors(c, f.node):
+            gens = [anc] if isinstance(anc, ast.For) else (anc.generators if isinstance(anc, (ast.ListComp, ast.SetComp, ast.GeneratorExp, ast.DictComp)) else [])
+            for g_ in gens:
+              it = g_.iter
+              if isinstance(it, ast.Call) and isinstance(it.func, ast.Name) and it.func.id in ("list", "tuple", "sorted") and it.args:
+                it = it.args[0]
+              if isinstance(g_.target, ast.Name) and g_.target.id == a.args[0].id and isinstance(it, ast.Call) and isinstance(it.func, ast.Attribute) \
+                  and it.func.attr in ("iter_styles", "keys") and unparse(it.func.value) == unparse(a.func.value):
+                guarded = True
+        # `if X.get(k) is None: X.set(k, <value>)` earlier in an enclosing block: the entry has been ensured
+        if not guarded:
+          cur = c
+          while cur is not None and cur is not f.node and not guarded:
+            par = getattr(cur, "_parent", None)
+            for fld in ("body", "orelse", "finalbody"):
+              blk = getattr(par, fld, None)
+              if isinstance(blk, list) and any(x is cur for x in blk):
+                for prev in blk[:[id(x) for x in blk].index(id(cur))]:
+                  if isinstance(prev, ast.If) and not prev.orelse and _is_none_test_of(prev.test, txt) and any(
+                      isinstance(w, ast.Call) and isinstance(w.func, ast.Attribute) and w.func.attr.startswith("set") and unparse(w.func.value) == unparse(a.func.value)
+                      and w.args and unparse(w.args[0]) == unparse(a.args[0]) and len(w.args) == 2 and not (isinstance(w.args[1], ast.Constant) and w.args[1].value is None)
+                      for st_ in prev.body for w in ast.walk(st_)):
+                    guarded = True
+            cur = par
+        if guarded:
+          n += 1
+          continue
+        ex = next((why for k_, why in (exempt or {}).items() if f.qualname.startswith(k_.split("|")[0]) and (("|" not in k_) or k_.split("|")[1] in txt)), None)
+        if ex is not None:
+          n += 1
+          ctx.ok(rule, f"{f.qualname}|{short(c, 60)}|tabled", ctx.where(f.module, c), "tabled: " + ex)
+          continue
+        callees = []
+        r = ix.resolve(f.module, c.func, cls=f.cls, func=f)
+        if isinstance(r, FuncInfo):
+          callees = [r]
+        elif isinstance(c.func, ast.Attribute):
+          callees = [g for g in by_name.get(c.func.attr, []) if g.cls is not None]
+        n += 1
+        for g in callees:
+          off = 1 if (g.cls is not None and not g.is_static) else 0
+          if isinstance(r, FuncInfo) and isinstance(c.func, ast.Name):
+            off = 0
+          if i + off >= len(g.params):
+            continue
+          p = g.params[i + off]
+          k = (g.qualname, p)
+          if k not in deref_cache:
+            deref_cache[k] = _param_derefs(g, p)
+          if deref_cache[k]:
+            d = deref_cache[k][0][0]
+            ctx.unit(f.module)
+            ctx.bad(rule, f"{f.qualname}|{short(c, 80)}", ctx.where(f.module, c),
+                    f"`{txt}` is None when the entry is missing ({why_null}), and it is passed as `{p}` to {g.short}, which evaluates "
+                    f"`{short(d, 50)}` without a None test: AttributeError / TypeError")
+            break
+  return n
+
+
+# NUL-known ----------------------------------------------------------------------------------
+def none_facts_from_test(e, pol: bool) -> typing.Set[str]:
+  """Local names known to BE None when test `e` evaluates to `pol`."""
+  if isinstance(e, ast.UnaryOp) and isinstance(e.op, ast.Not):
+    return none_facts_from_test(e.operand, not pol)
+  if isinstance(e, ast.BoolOp):
+    sets = [none_facts_from_test(v, pol) for v in e.values]
+    if (isinstance(e.op, ast.And) and pol) or (isinstance(e.op, ast.Or) and not pol):
+      return set().union(*sets)
+    out = sets[0]
+    for s in sets[1:]:
+      out = out & s
+    return out
+  if isinstance(e, ast.Compare) and len(e.ops) == 1:
+    op, l, r = e.ops[0], e.left, e.comparators[0]
+    is_none = lambda x: isinstance(x, ast.Constant) and x.value is None
+    if is_none(r) or is_none(l):
+      other = l if is_none(r) else r
+      if isinstance(other, ast.Name):
+        if isinstance(op, (ast.Is, ast.Eq)) and pol:
+          return {other.id}
+        if isinstance(op, (ast.IsNot, ast.NotEq)) and not pol:
+          return {other.id}
+  return set()
+
+
+def check_known_none(ctx, funcs: typing.Iterable[FuncInfo], rule="NUL-known"):
+  """A local that a dominating test has established to BE None (the false side of `x is not None`, the code after
+  `if x is not None: ... return`) and that is not assigned since is dereferenced (`x.attr`, `x[...]`, `x.m()`): the
+  test and the dereference contradict each other - typically the name of a sibling branch's variable."""
+  from ..cfg import assigned_names
+  n = 0
+  for f in funcs:
+    tests = [t for t in own_nodes(f.node) if isinstance(t, (ast.If, ast.While, ast.IfExp)) and none_facts_from_test(t.test, True) | none_facts_from_test(t.test, False)]
+    if not tests:
+      continue
+    cfg = CFG(f.node)
+
+    def transfer(node, state):
+      st = set(state)
+      a = node.ast
+      if node.kind == "stmt" and a is not None:
+        tg = []
+        if isinstance(a, ast.Assign):
+          tg = a.targets
+        elif isinstance(a, (ast.AugAssign, ast.AnnAssign)):
+          tg = [a.target]
+        elif isinstance(a, (ast.For, ast.AsyncFor)):
+          tg = [a.target]
+        elif isinstance(a, ast.With):
+          tg = [i.optional_vars for i in a.items if i.optional_vars is not None]
+        for t in tg:
+          for nm in assigned_names(t):
+            st.discard(nm)
+        if isinstance(a, ast.Assign) and len(a.targets) == 1 and isinstance(a.targets[0], ast.Name) and isinstance(a.value, ast.Constant) and a.value.value is None:
+          pass        # `x = None` alone is an initialisation idiom (loops assign it later): not a contradiction source
+        for w in ast.walk(a) if not isinstance(a, (ast.FunctionDef, ast.ClassDef, ast.If, ast.While, ast.For, ast.Try, ast.With)) else []:
+          if isinstance(w, ast.NamedExpr) and isinstance(w.target, ast.Name):
+            st.discard(w.target.id)
+      return frozenset(st)
+
+    def edge(node, lab, sin, sout):
+      if isinstance(lab, tuple):
+        if lab[0] == "cond":
+          return frozenset(set(sout) | none_facts_from_test(lab[1], lab[2]))
+        if lab[0] == "exc":
+          return sin
+        if lab[0] == "iter":
+          st = set(sout)
+          for nm in ast.walk(node.ast.target):
+            if isinstance(nm, ast.Name):
+              st.discard(nm.id)
+          return frozenset(st)
+      return sout
+    inn = forward(cfg, frozenset(), transfer, lambda a, b: a & b, edge)
+    seen = set()
+    for nid, state in inn.items():
+      node = cfg.nodes[nid]
+      if node.ast is None or not state:
+        continue
+      for e in header_exprs(node):
+        if isinstance(e, (ast.FunctionDef, ast.ClassDef)):
+          continue
+        found = []
+        tracked = lambda p, _s=state: "a dominating test established that it is None" if p in _s else None
+        if isinstance(e, ast.stmt):
+          for ch in ast.iter_child_nodes(e):
+            if isinstance(ch, ast.expr):
+              _derefs(ch, tracked, set(), found)
+            elif isinstance(ch, ast.keyword):
+              _derefs(ch.value, tracked, set(), found)
+        else:
+          _derefs(e, tracked, set(), found)
+        for (d, p, why) in found:
+          if "arithmetic" in why:
+            continue
+          k = (p, getattr(d, "lineno", 0), unparse(d))
+          if k in seen:
+            continue
+          seen.add(k)
+          ctx.unit(f.module)
+          ctx.bad(rule, f"{f.qualname}|{short(d, 70)}", ctx.where(f.module, d),
+                  f"`{p}` is None here (a dominating test on every path to this point says so, and it is not assigned in between), yet `{short(d, 60)}` dereferences it: "
+                  "AttributeError / TypeError whenever this statement is reached")
+    n += len(tests)
+  return n
